@@ -43,6 +43,37 @@ pub const CONTROL_TEXTS: [&str; 8] = [
     "Source: foo\nHomepage: https://example.com/\nVcs-Git: https://x/y.git -b main\n\nPackage: foo\nPre-Depends: a\nBreaks: b (<< 1)\nEnhances: c\nDescription: d\n",
 ];
 
+/// Paragraph kinds for the ordering clause of the control wrapper: two source paragraphs, two binary paragraphs of the
+/// SAME name (a tie), another binary, a paragraph of neither kind.
+const CONTROL_PARAS: [&str; 6] = ["Source: alpha\nBuild-Depends: b, a\n", "Source: zeta\n", "Package: a\nDepends: y\n", "Package: a\nDepends: x\n", "Package: b\n", "X-Other: 1\n"];
+
+/// control text `i`: the fixed ones, then every ordered selection of 2 and of 3 distinct paragraph kinds
+pub fn control_text(i: usize) -> Option<String> {
+    if i < CONTROL_TEXTS.len() {
+        return Some(CONTROL_TEXTS[i].to_string());
+    }
+    let mut j = i - CONTROL_TEXTS.len();
+    let n = CONTROL_PARAS.len();
+    if j < n * (n - 1) {
+        let (a, b) = (j / (n - 1), j % (n - 1));
+        let b = if b >= a { b + 1 } else { b };
+        return Some([CONTROL_PARAS[a], CONTROL_PARAS[b]].join("\n"));
+    }
+    j -= n * (n - 1);
+    if j < n * (n - 1) * (n - 2) {
+        let (a, r) = (j / ((n - 1) * (n - 2)), j % ((n - 1) * (n - 2)));
+        let rest: Vec<usize> = (0..n).filter(|x| *x != a).collect();
+        let (b, c) = (rest[r / (n - 2)], r % (n - 2));
+        let rest2: Vec<usize> = rest.iter().cloned().filter(|x| *x != b).collect();
+        return Some([CONTROL_PARAS[a], CONTROL_PARAS[b], CONTROL_PARAS[rest2[c]]].join("\n"));
+    }
+    None
+}
+pub fn n_control_texts() -> usize {
+    let n = CONTROL_PARAS.len();
+    CONTROL_TEXTS.len() + n * (n - 1) + n * (n - 1) * (n - 2)
+}
+
 fn cfg_menus() -> Vec<usize> {
     vec![4, 2, 3, 3, 3, 4]
 }
@@ -714,7 +745,8 @@ fn ref_control_order(a: &Paragraph, b: &Paragraph) -> Ordering {
 
 fn check_control(ti: usize, c: &Cfg, via: usize) -> Vec<Viol> {
     use debian_control::lossless::control::Control;
-    let text = CONTROL_TEXTS[ti];
+    let Some(text) = control_text(ti) else { return vec![] };
+    let text = text.as_str();
     let mut out = vec![];
     // differential: the wrappers are the deb822-level reformatting (whose layout guarantees the document cases check)
     // with the control formatter and the control paragraph order plugged in
@@ -781,15 +813,20 @@ fn check_control(ti: usize, c: &Cfg, via: usize) -> Vec<Viol> {
                 paras.push((b.as_deb822().items().collect::<Vec<_>>(), b.as_deb822().to_string()));
             }
         }
-        for (items, ptext) in paras {
+        // the input paragraphs the wrappers were taken from, in the same order (first with Source, then every one with Package)
+        let mut sources_of: Vec<&Vec<(String, String)>> = vec![];
+        if let Some(p) = input.iter().find(|p| p.iter().any(|(k, _)| k == "Source")) {
+            sources_of.push(p);
+        }
+        sources_of.extend(input.iter().filter(|p| p.iter().any(|(k, _)| k == "Package")));
+        for (pidx, (items, ptext)) in paras.into_iter().enumerate() {
             match Deb822::from_str(&ptext) {
                 Ok(re) => {
                     let rr: Vec<(String, String)> = re.paragraphs().next().map(|p| p.items().collect()).unwrap_or_default();
                     if rr != items {
                         out.push(viol("live-equals-reread", ctx(&format!("paragraph wrapper: live {:?} re-read {:?}", items, rr))));
                     }
-                    let inp = input.iter().find(|p| p.first().map(|f| &f.0) == items.first().map(|f| &f.0) && p.first().map(|f| f.1.trim()) == items.first().map(|f| f.1.trim()));
-                    if let Some(inp) = inp {
+                    if let Some(inp) = sources_of.get(pidx) {
                         let a: Vec<_> = inp.iter().map(|(k, v)| (k.clone(), control_value_norm(k, v))).collect();
                         let b: Vec<_> = rr.iter().map(|(k, v)| (k.clone(), control_value_norm(k, v))).collect();
                         if a != b {
@@ -898,11 +935,11 @@ impl Prop for C07 {
         "exploration"
     }
     fn rule(&self, _t: Tier) -> String {
-        "documents: every layout vector with <= k deviations on 5 skeletons (values made unique per field; the final newline is a free dimension on top of the k deviations), crossed with the FULL product of 864 settings (minus the 240 that combine a line-restructuring formatter with a value-dependent comparator) (4 indentations x immediate_empty_line x 3 one-liner limits x 3 paragraph orders x 3 entry orders x 4 formatters); each case runs Deb822::wrap_and_sort (with Paragraph::wrap_and_sort plugged in), re-reads the result, applies it a second time and cross-checks the Paragraph- and Entry-level entry points; control wrappers: 8 control files x 24 settings x {Control, Source/Binary}; non-trivial = case whose document has a deviation or whose setting differs from the default".into()
+        "documents: every layout vector with <= k deviations on 5 skeletons (values made unique per field; the final newline is a free dimension on top of the k deviations), crossed with the FULL product of 864 settings (minus the 240 that combine a line-restructuring formatter with a value-dependent comparator) (4 indentations x immediate_empty_line x 3 one-liner limits x 3 paragraph orders x 3 entry orders x 4 formatters); each case runs Deb822::wrap_and_sort (with Paragraph::wrap_and_sort plugged in), re-reads the result, applies it a second time and cross-checks the Paragraph- and Entry-level entry points; control wrappers: 8 control files x 24 settings x {Control, Source/Binary}, and every ordered selection of 2 and 3 paragraphs out of 6 kinds (two source paragraphs, two binaries of the same name, another binary, a paragraph of neither kind: 150 files) x both empty-first-line settings; non-trivial = case whose document has a deviation or whose setting differs from the default".into()
     }
     fn bounds(&self, t: Tier) -> Value {
         let sk: Vec<Value> = c07_skels().iter().map(|s| json!({"skeleton": s, "k": c07_k(t, *s), "documents": kdev_count(&menus(*s), c07_k(t, *s))})).collect();
-        json!({"skeletons": sk, "settings_per_document": 864, "control_texts": CONTROL_TEXTS.len(), "control_settings": 24})
+        json!({"skeletons": sk, "settings_per_document": 864, "control_texts": n_control_texts(), "control_settings": 24})
     }
     fn assumptions(&self) -> Vec<String> {
         vec![
@@ -916,8 +953,10 @@ impl Prop for C07 {
     fn explore(&self, t: Tier, shard: usize, f: &mut dyn FnMut(&C07Case) -> Verdict) {
         let shards = c07_shards();
         if shard == shards.len() {
-            for text in 0..CONTROL_TEXTS.len() {
-                product(&[4, 2, 3], &mut |v| {
+            for text in 0..n_control_texts() {
+                // (the generated ordering texts: both empty-first-line settings, one indentation and width)
+                let dims: [usize; 3] = if text < CONTROL_TEXTS.len() { [4, 2, 3] } else { [1, 2, 1] };
+                product(&dims, &mut |v| {
                     for via in 0..2 {
                         f(&C07Case::Control { text, cfg: Cfg { indent: v[0], iel: v[1] == 1, oneliner: v[2], porder: 0, eorder: 0, fmt: 0 }, via });
                     }
